@@ -4355,3 +4355,137 @@ def trm2(m, run, rule='TRM2.every-importable-trim-kind-is-accepted'):
             except Unsupported as ex:
                 raise AnalysisError('%s: interpreter met an unsupported construct: %s' % (key, ex))
             run.ob(rule, key, why is None, 'accepted' if dim == 2 and why is None else ('rejected' if why is None else why), 'geomdl/%s.py:%d in %s' % (fi.mod, fi.node.lineno, fi.key))
+
+
+# ====================================================================================== C14: dictionary round trip through the real classes
+def jr2(m, run, rule='JR2.dictionary-round-trip-on-real-classes'):
+    """JR2: a rational curve, surface (non-square, different degrees) and volume are built by interpreting the classes' own constructors and
+    setters on exact data (symbolic homogeneous control points, order-token knots, a non-default delta, name, id); _exchange.export_dict_*
+    and import_dict_* are then interpreted one after the other: the imported object has the degrees, sizes, knot vectors, homogeneous
+    control points (compared as exact rational functions, position by position) and delta of the exported one"""
+    from .skel import Sym
+    from .poly import Poly
+    cases = (('crv', 'Curve', (2,), (4,)), ('surf', 'Surface', (2, 1), (3, 4)), ('vol', 'Volume', (1, 2, 1), (2, 3, 2)))
+    for tag, cname, degs, sizes in cases:
+        pdim = len(degs)
+        total = 1
+        for s_ in sizes:
+            total *= s_
+        ab = dict(STD_ABSTRACTED)
+        ab[('knotvector', 'normalize')] = Py(lambda sk, node, kv, *a, **k: [Ord(x.rank) for x in kv], 'knotvector.normalize')
+        sk = SK(m, ab)
+        sk.exact = True
+        sk.construct = True
+        key = '_exchange.export_dict_%s -> import_dict_%s' % (tag, tag)
+        why = None
+        try:
+            src = sk.apply(('class', ('NURBS', cname)), [], {}, None)
+            Pw = [[Sym('P%d_%d' % (i, c)) for c in range(4)] for i in range(total)]
+            suffix = [''] if pdim == 1 else ['_' + 'uvw'[d] for d in range(pdim)]
+
+            def setp(obj, name, value):
+                fi_ = m.lookup(obj._cls, name, 'setters')
+                if fi_ is None:
+                    raise AnalysisError('%s: no setter %s on NURBS.%s' % (key, name, cname))
+                sk.call(fi_, [obj, value], {})
+
+            def getp(obj, name):
+                fi_ = m.lookup(obj._cls, name, 'getters')
+                if fi_ is None:
+                    raise AnalysisError('%s: no getter %s on NURBS.%s' % (key, name, cname))
+                return sk.call(fi_, [obj], {})
+            for d in range(pdim):
+                setp(src, 'degree' + suffix[d], degs[d])
+            sc_ = m.lookup(src._cls, 'set_ctrlpts', 'methods')
+            sk.call(sc_, [src, [list(p_) for p_ in Pw]] + (list(sizes) if pdim > 1 else []), {})
+            ranks = [[0] * (p + 1) + list(range(1, n - p)) + [n - p] * (p + 1) for p, n in zip(degs, sizes)]
+            for d in range(pdim):
+                setp(src, 'knotvector' + suffix[d], [Ord(r) for r in ranks[d]])
+            setp(src, 'delta', 0.125)
+            setp(src, 'name', 'the shape')
+            setp(src, 'id', 7)
+            trims = []
+            if tag == 'surf':
+                # one trim of every kind the format carries: a spline curve, a freeform, a container holding a spline curve
+                def trim_curve(label):
+                    c_ = sk.apply(('class', ('BSpline', 'Curve')), [], {}, None)
+                    setp(c_, 'degree', 1)
+                    sk.call(m.lookup(c_._cls, 'set_ctrlpts', 'methods'), [c_, [[Sym('%s%d_%d' % (label, i, c)) for c in range(2)] for i in range(3)]], {})
+                    setp(c_, 'knotvector', [Ord(r) for r in (0, 0, 1, 2, 2)])
+                    return c_
+                t1 = trim_curve('T')
+                t2 = sk.apply(('class', ('freeform', 'Freeform')), [], {}, None)
+                sk.call(m.lookup(t2._cls, 'evaluate', 'methods'), [t2], {'points': [[Sym('F%d_%d' % (i, c)) for c in range(2)] for i in range(4)]})
+                t3 = sk.apply(('class', ('multi', 'CurveContainer')), [], {}, None)
+                sk.call(m.lookup(t3._cls, 'add', 'methods'), [t3, trim_curve('U')], {})
+                trims = [t1, t2, t3]
+                setp(src, 'trims', trims)
+            data = sk.call(m.func('_exchange.export_dict_' + tag), [src], {})
+            if not isinstance(data, dict):
+                why = 'export does not return a dictionary'
+            else:
+                back = sk.call(m.func('_exchange.import_dict_' + tag), [data], {})
+                a, b = src._a, back._a
+                if not isinstance(back, Bag) or back is src:
+                    why = 'import does not return a new shape'
+                elif list(b.get('_degree', [])) != list(degs):
+                    why = 'degrees come back as %s, exported %s' % (list(b.get('_degree', [])), list(degs))
+                elif list(b.get('_control_points_size', [])) != list(sizes):
+                    why = 'sizes come back as %s, exported %s' % (list(b.get('_control_points_size', [])), list(sizes))
+                elif [[getattr(k, 'rank', None) for k in kv] for kv in b.get('_knot_vector', [])] != ranks:
+                    why = 'the knot vectors do not come back in their own directions'
+                else:
+                    cp = b.get('_control_points', [])
+                    if len(cp) != total:
+                        why = '%d control points come back, %d were exported' % (len(cp), total)
+                    for i in range(total):
+                        if why:
+                            break
+                        for c in range(4):
+                            s = _as_sym(cp[i][c]) if len(cp[i]) > c else None
+                            if s is None or not s.same(Pw[i][c]):
+                                why = 'homogeneous control point %d slot %d comes back as %s, exported %r' % (i, c, repr(cp[i][c])[:90] if len(cp[i]) > c else 'nothing', Pw[i][c])
+                                break
+                    if why is None:
+                        # ... and the public views of the imported shape report it too
+                        wv, uv = getp(back, 'weights'), getp(back, 'ctrlpts')
+                        for i in range(total):
+                            sw_ = _as_sym(wv[i]) if isinstance(wv, (list, tuple)) and len(wv) > i else None
+                            if sw_ is None or not sw_.same(Pw[i][3]):
+                                why = 'the weights getter of the imported shape reports %s for point %d, the file has %r' % (repr(wv[i])[:60] if isinstance(wv, (list, tuple)) and len(wv) > i else wv, i, Pw[i][3])
+                                break
+                            for c in range(3):
+                                su_ = _as_sym(uv[i][c]) if isinstance(uv, (list, tuple)) and len(uv) > i and len(uv[i]) > c else None
+                                if su_ is None or not su_.same(Sym(Pw[i][c].p, Pw[i][3].p)):
+                                    why = 'the ctrlpts getter of the imported shape reports %s for point %d coordinate %d, the file has %r / %r' % (
+                                        repr(uv[i][c])[:60] if su_ is not None else 'nothing', i, c, Pw[i][c], Pw[i][3])
+                                    break
+                            if why:
+                                break
+                    if why is None and trims:
+                        bt = getp(back, 'trims')
+                        if not isinstance(bt, (list, tuple)) or len(bt) != len(trims):
+                            why = '%r trims come back, %d were exported (a spline curve, a freeform, a curve container)' % (len(bt) if isinstance(bt, (list, tuple)) else bt, len(trims))
+                        else:
+                            kinds = [x._cls[1] if isinstance(x, Bag) and isinstance(x._cls, tuple) else None for x in bt]
+                            if kinds != ['Curve', 'Freeform', 'CurveContainer']:
+                                why = 'the trims come back as %s, exported Curve, Freeform, CurveContainer' % kinds
+                            else:
+                                tc = getp(bt[0], 'ctrlpts')
+                                ok_t = isinstance(tc, (list, tuple)) and len(tc) == 3 and all(_as_sym(tc[i][c]) is not None and _as_sym(tc[i][c]).same(Sym('T%d_%d' % (i, c))) for i in range(3) for c in range(2))
+                                fp_ = bt[1]._a.get('_eval_points')
+                                ok_f = isinstance(fp_, (list, tuple)) and len(fp_) == 4 and all(_as_sym(fp_[i][c]) is not None and _as_sym(fp_[i][c]).same(Sym('F%d_%d' % (i, c))) for i in range(4) for c in range(2))
+                                if not ok_t:
+                                    why = 'the spline trim does not come back with its control points'
+                                elif not ok_f:
+                                    why = 'the freeform trim does not come back with its points'
+                    if why is None:
+                        da, db = getp(src, 'delta'), getp(back, 'delta')
+                        if da != db:
+                            why = 'delta comes back as %r, exported %r (the sampling density is part of what the format carries)' % (db, da)
+        except Violation as v:
+            why = '%s %s' % (v.msg, v.where())
+        except Unsupported as ex:
+            raise AnalysisError('%s: interpreter met an unsupported construct: %s' % (key, ex))
+        run.ob(rule, key + ' :: NURBS.%s' % cname, why is None, 'degrees, sizes, knots, homogeneous points (exact), delta, id come back unchanged' if why is None else why,
+               'geomdl/_exchange.py in _exchange.export_dict_%s / import_dict_%s' % (tag, tag))
